@@ -1367,8 +1367,9 @@ def rng_judge(c, o):
 @check("C20", "fault_enumeration")
 def c20(run):
     run.rule = ("Entropy.tla enumerates every fault of the random source: operation in {Builder.Build+WithRNG, New, Append, Append after "
-                "reload} x bytes delivered before the failure k in 0..32 (32 = no failure) x failure kind {error, EOF, ErrUnexpectedEOF, "
-                "zero-byte read then error} x maximal read size {1, 7, 32}; TLC checks NoDegenerateKey / ErrorIffFault / termination and "
+                "reload} x bytes delivered before the failure k in 0..32 (32 = no failure) x failure kind {error, EOF, wrapped EOF, ErrUnexpectedEOF, "
+                "zero-byte read then error, EAGAIN / EINTR (Temporary), deadline exceeded (Timeout), *PathError, last bytes and error "
+                "(or EOF) delivered by the same Read} x maximal read size {1, 7, 32}; TLC checks NoDegenerateKey / ErrorIffFault / termination and "
                 "exports each case with the specified outcome; each case is executed on the real library with a fault-injecting io.Reader "
                 "in a worker process (a panic or process death is a violation). Exhaustive over this space. Non-trivial = cases with k < 32.")
     run.assumptions = ["the key generator reads exactly 32 bytes (self-calibrated against crypto/ed25519.GenerateKey of the toolchain)"]
